@@ -29,7 +29,11 @@ import (
 )
 
 // cdcObsCodec returns the observation codec of a plugin built by the factory.
-func cdcObsCodec() llo.ObservationCodec {
+func cdcObsCodec() llo.ObservationCodec { return cdcObsCodecOf(false) }
+
+// cdcObsCodecOf: the same, from a plugin whose node-local VerboseLogging setting is as given (logging must not
+// change what a codec returns)
+func cdcObsCodecOf(verbose bool) llo.ObservationCodec {
 	ocb, err := llo.EVMOnchainConfigCodec{}.Encode(llo.OnchainConfig{Version: 1})
 	if err != nil {
 		panic(err)
@@ -39,6 +43,7 @@ func cdcObsCodec() llo.ObservationCodec {
 		panic(err)
 	}
 	f := llo.NewPluginFactory(llo.PluginFactoryParams{
+		Config:                llo.Config{VerboseLogging: verbose},
 		Logger:                logger.Nop(),
 		OnchainConfigCodec:    llo.EVMOnchainConfigCodec{},
 		RetirementReportCodec: llo.StandardRetirementReportCodec{},
@@ -145,6 +150,7 @@ func cdcOnchainJ(c llo.OnchainConfig) J {
 
 func init() {
 	obsCodec := cdcObsCodec()
+	obsCodecVerbose := cdcObsCodecOf(true)
 
 	// {"obs":Obs (values may be null)} -> message dump (maps and removal ids sorted); "_rt" = Decode of the bytes
 	RegOp("obs.encode", func(in J) any {
@@ -171,6 +177,12 @@ func init() {
 			res["_rt_err"] = derr.Error()
 		} else {
 			res["_rt"] = obsJ(d)
+		}
+		// the codec of a node that logs verbosely: same bytes out, same observation back
+		_, errv := obsCodecVerbose.Encode(jObs(in["obs"]))
+		dv, derrv := obsCodecVerbose.Decode(b)
+		if errv != nil || (derr == nil) != (derrv == nil) || derr == nil && !cdcSame(normalise(obsJ(d)), normalise(obsJ(dv))) {
+			return J{"ok": nil, "_clobbered": true, "_clobbered_by": "ObservationCodec of a plugin built with VerboseLogging encodes / decodes differently from the one built without"}
 		}
 		return res
 	})
